@@ -140,6 +140,7 @@ def main():
         if cap and len(walks) >= cap:
             break
     dwin = any(a is not None and a.get("a") == "flush.done" for a in act.values())
+    cwin = any(a is not None and a.get("a") == "appclose.wait" for a in act.values())
     behs = []
     for p in walks:
         b = []
@@ -147,6 +148,8 @@ def main():
             r = dict(act[n]); r["exp"] = {k: v for k, v in proj[n].items() if not k.startswith("_")}; b.append(r)
         if b and dwin:
             b[0]["dwin"] = True       # the model has the drain-listener window: the harness must hold that gate throughout
+        if b and cwin:
+            b[0]["cwin"] = True       # .. the window between Close's test of the counter and the registration of its drain listener
         behs.append(b)
     json.dump(behs, open(out, "w"))
     steps = sum(len(b) for b in behs)
